@@ -44,3 +44,15 @@ Check (VF.Properties.C16.C16_full_stack_all_messages : forall ms (m : msg) (mav 
 Check (VF.Properties.C16.C16_full_stack_all_messages_exact : forall (m : msg) (mav : bool) (d : dev) (us : list sop),
   wf_msg m = true -> queue_printable d = true -> message_ops m = Some us ->
   (dev_message d mav (render_msg m) = Val (op_message d mav us) <-> stray_separator m = false)).
+From VF Require Import Gen_Esr ErrTable Lexer Contrib_anybytes.
+
+
+Check (VF.Properties.C16.C16_dev_message_preserves_regs_ok : forall d mav bytes d' out r,
+  regs_ok d -> dev_message d mav bytes = Val (d', out, r) -> regs_ok d').
+Check (VF.Properties.C16.C16_dev_session_regs_ok : forall msgs d d', regs_ok d -> dev_session d msgs = Val d' -> regs_ok d').
+Check (VF.Properties.C16.C16_dev_message_total : forall d mav bytes, exists r, dev_message d mav bytes = Val r).
+Check (VF.Properties.C16.C16_any_successful_message_exact : forall d mav bytes d' out,
+  dev_message d mav bytes = Val (d', out, None) ->
+  (exists n k, queue d' = skipn n (queue d) ++ repeat (std_error OperationComplete) k)
+  /\ (forall i, N.testbit (esr d') i = true -> N.testbit (esr d) i = true \/ i = 0)
+  /\ tst_result d' = tst_result d).
